@@ -266,11 +266,13 @@ fn step(r: &mut Run, op: Op) -> Result<bool, (String, String)> {
 }
 
 fn resync(real: &Populations<TagP>) -> Model {
+    // (through len() and guarded reads: the accessors themselves are under test)
     let mut m = Vec::new();
-    let mut d = 0;
-    while let Some(p) = real.try_peek(d) {
-        m.push(view(p));
-        d += 1;
+    for d in 0..real.len() {
+        match catch(|| real.try_peek(d).map(view)) {
+            Ok(Some(p)) => m.push(p),
+            _ => break,
+        }
     }
     m.reverse();
     m
